@@ -10,3 +10,4 @@ import Helm.Props.C17
 import Helm.Props.C15
 import Helm.Props.C14
 import Helm.Props.C05
+import Helm.Props.C20
